@@ -534,13 +534,7 @@ func c02Listener(r *core.Run, rule string, a *svcAnchors, root []*ssa.Function) 
 		// helpers' parameters to serve's own value)
 		same := false
 		inServe := c.Parent() == a.Serve || (c.Parent().Parent() == nil && p.Within(c.Parent(), a.Serve) && len(p.Lift(c, a.Serve)) > 0)
-		one := func(v ssa.Value) ssa.Value {
-			vs := paramArgs(p, v, 0)
-			if len(vs) != 1 {
-				return nil
-			}
-			return vs[0]
-		}
+		one := func(v ssa.Value) ssa.Value { return originOf(p, v) }
 		if cv := one(chanArg); cv != nil {
 			for _, f2 := range p.Helpers(a.Serve) {
 				for _, b := range f2.Blocks {
@@ -758,8 +752,26 @@ func c02WorkQueueShape(r *core.Run, rule string, a *svcAnchors, root []*ssa.Func
 					ok = true
 				} else if p.Within(ac.Fn, a.Worker) {
 					// must be on the len(workqueue)==1 edge
+					headRead := false // the head element was read before: the queue holds at least one item
+					for _, b := range st.Parent().Blocks {
+						for _, in := range b.Instrs {
+							if ia, isIA := in.(*ssa.IndexAddr); isIA {
+								if f, isF := core.LoadedField(ia.X); isF && f == a.WorkQueue {
+									if k, isC := core.ConstInt(ia.Index); isC && k == 0 && core.Dominates(ia, st) {
+										headRead = true
+									}
+								}
+							}
+						}
+					}
 					for _, ed := range dominatingEdges(st) {
-						if describeCond(ed) == "len "+a.WorkQueue.String()+"==1" {
+						d := describeCond(ed)
+						q := "len " + a.WorkQueue.String()
+						if d == q+"==1" {
+							ok = true
+						}
+						// "not more than one" together with the head having been read is "exactly one"
+						if headRead && (d == q+"<=1" || d == q+"<2" || d == "!cond("+q+">1)" || d == "!cond(("+q+">1))") {
 							ok = true
 						}
 					}
